@@ -845,6 +845,11 @@ def general_histories(rng, tier, n_hist=None, steps=None):
             h.do(("transfer", 2, USER0 + 2, q, max(1, base // rng.choice([1, 3, 1000]))))
             # a first provision that DECLARES a native amount the pair already holds idle, attaching nothing of it
             h.do(("provide", q, USER0, [], ("n", 1), max(1, base // 4), ("t", 2), max(1, base // 8), None, None))
+            if hi % 4 in (0, 2):
+                # ... and then a proper first provision (funds attached, whitelisted caller) on that pair, which already holds
+                # idle balances of both assets: they stay in the pool, nobody else's balance moves (C07-agent21: the idle
+                # balances paid out to the factory by the first provision)
+                h.do(("provide", q, USER0, [(1, max(1000, base // 4))], ("n", 1), max(1000, base // 4), ("t", 2), max(1000, base // 8), None, None))
             h.query("sim %d %s %d" % (q, a_line(("n", 1)), max(1, base // 100)))
             h.query("revsim %d %s %d" % (q, a_line(("n", 1)), max(1, base // 1000)))
             h.query("rsim %d %s" % (max(1, base // 100), ops_line([(("t", 2), ("n", 1))])))
@@ -1033,6 +1038,24 @@ def extreme_histories(rng, tier):
                 b = h.bal(lp, u)
                 if b > 3:
                     h.do(("send", lp, u, p, b // 3, ("hwithdraw",)))
+    cases.append(h.finish())
+    # pools whose FIRST asset (pool order) is scarce: reserve0/reserve1 is one or a few units of the 18th digit, so deposits that
+    # are far from proportional have the same 18-digit ratio as the pool; the share minted is still the smaller of the two
+    # pro-rata arms (C03-agent21: "deposit at the pool price" decided by comparing truncated ratios, then one arm only)
+    h = Hist(3, 2, 2, 3, 10 ** 26, 1000, [6, 18], "directed-extreme", "scarce first asset: pool ratio at the 18-digit resolution")
+    created = setup_pairs(h, rng, [(("t", 2), ("t", 3)), (("n", 0), ("t", 3)), (("t", 2), ("n", 1))], comm=3 * 10 ** 15, provide=False, native_decs=[6, 6])
+    for j, p in enumerate(created):
+        a0, a1 = h.pair_assets(p)
+        lp = h.pair_lp(p)
+        n0, n1 = [(10 ** 6, 10 ** 24), (1000, 10 ** 21), (7 * 10 ** 5, 2 * 10 ** 23)][j]
+        h.do(("provide", p, USER0, funds_for([(a0, n0), (a1, n1)]), a0, n0, a1, n1, None, None))
+        for frac in (6, 9, 10, 3):
+            d0, d1 = n0, n1 * frac // 10
+            h.do(("provide", p, USER0 + 1, funds_for([(a0, d0), (a1, d1)]), a0, d0, a1, d1, None, None))
+            h.do(("provide", p, USER0 + 2, funds_for([(a1, d1), (a0, d0)]), a1, d1, a0, d0, None, None))
+        for u in (USER0 + 1, USER0 + 2):
+            if h.bal(lp, u) > 0:
+                h.do(("send", lp, u, p, h.bal(lp, u), ("hwithdraw",)))
     cases.append(h.finish())
     # the same value cycles through a pool again and again: every round a holder withdraws half of its LP and the payout is
     # donated back; no single amount is large, but the payouts ADD UP to more than 2^128
@@ -1286,6 +1309,10 @@ def first_provision_matrix(rng, tier):
             b0, b1 = h.pair_assets(q_)
             for c_ in (wl_user, other_wl, outsider):
                 h.do(("provide", q_, c_, funds_for([(b0, 4000), (b1, 1000)]), b0, 4000, b1, 1000, None, None))
+        # while every pair is still EMPTY the owner registers both native denoms again with fewer digits: the first-provision
+        # minimums configured at creation are amounts in base units and stay what they were (C05-agent21: minimums rescaled)
+        for d_ in range(h.nd):
+            h.do(("fac_add_native", h.owner(), d_, 2))
         for i, p in enumerate(created):
             a0, a1 = h.pair_assets(p)
             m0, m1 = mins_of[p]
@@ -1839,19 +1866,22 @@ def registry_histories(rng, tier, big=False):
     # MANY registered denoms (more than any page size a listing might use), few pairs: the denoms the pairs trade sort after
     # thirty others; each is registered again, twice (C17-agent16: the registry of denoms read through a paged helper)
     nd_ = 36
-    h = Hist(1, nd_, 2, 8, 10 ** 9, 1000, [6, 18], "directed-grid", "registry with %d native denoms" % nd_)
+    h = Hist(1, nd_, 2, 10, 10 ** 9, 1000, [6, 18], "directed-grid", "registry with %d native denoms" % nd_)
     owner = h.owner()
     for d in range(nd_):
         h.do(("fac_add_native", owner, d, 6 + d % 3))
     late = [0, 1, 3, 4, 5]          # uaura, ibc/..., uaurax, xuaura, uzzz: all sort after "UAURA" and "denom6".."denom35"
     cand = [(("n", late[i]), ("n", late[j])) for i in range(len(late)) for j in range(i + 1, len(late))][:4] + \
-           [(("n", 4), ("t", 2)), (("t", 3), ("n", 5)), (("n", 20), ("t", 2)), (("n", 2), ("n", 0))]
+           [(("n", 4), ("t", 2)), (("t", 3), ("n", 5)), (("n", 20), ("t", 2)), (("n", 2), ("n", 0))] + \
+           [(("n", 7), ("n", 8)), (("n", 10), ("n", 9))]     # {axl-usdc, weth} and {usdc-weth, axl}: alike when joined with "-" (C19-agent21)
     for (a, b) in cand:
         h.do(("fac_create_pair", owner, a, b, [USER0], 0, 0, None, None))
     for rnd in (0, 1):
         for d in late + [20, 2, 35]:
             h.do(("fac_add_native", owner, d, [9, 12][rnd] + d % 2))
         h.query("walk %s" % o_line(None))
+        h.query("walk %s" % o_line(30))
+        h.query("walk %s" % o_line(1))
     cases.append(h.finish())
     # unregistered denom / denom the factory holds none of
     h = Hist(2, 3, 1, 2, 10 ** 9, 0, [6], "directed-grid", "factory holds no native balance")
@@ -1887,6 +1917,20 @@ def router_histories(rng, tier):
                 if quote:
                     for m in (quote[0] + 1, amount):
                         h.do(("router_ops", u, [(N_[1], amount)], ops, m, to_), quote)
+        # directed: next to the offered coin the caller attaches a coin of the route's FINAL denom and is itself the recipient;
+        # minimums of quote + that coin and quote + 1 must fail: what the caller sent in does not count as delivered
+        # (C11-agent21: unused attached coins refunded before the hops and counted as proceeds)
+        for ops, xd in (([(("n", 0), ("t", 2)), (("t", 2), ("n", 1))], 1), ([(("n", 1), ("n", 0))], 0)):
+            u = USER0 + 3
+            od = ops[0][0][1]
+            amount = max(1000, min(h.bank(u, od) // 4, 10 ** 6 + 11))
+            x = 3000
+            if h.bank(u, xd) < x or h.bank(u, od) < amount:
+                continue
+            for dm in (x, 1, 0):
+                quote = h.query("rsim %d %s" % (amount, ops_line(ops)))
+                if quote:
+                    h.do(("router_ops", u, sorted([(od, amount), (xd, x)]), ops, quote[0] + dm, None), quote)
         # directed, while the router is certainly empty: routes whose final asset is also spent by an earlier hop
         # (a cycle back to the input through distinct pairs; a 4-hop route ending on a middle asset), no minimum
         sh = list(assets)
